@@ -11,10 +11,19 @@ import (
 
 var verifRegRules []*rules.NetworkRule
 var verifRegIdx []int64
+var verifFaulty bool
+var verifFaultCalls int
 
 // verifRetrieveNetworkRule replaces RuleStorage.RetrieveNetworkRule: the storage
 // is perfect (C11/C13 cover it), the index is symbolic.
 func verifRetrieveNetworkRule(s *filterlist.RuleStorage, idx int64) *rules.NetworkRule {
+	if verifFaulty {
+		// C19: any retrieval may fail (list closed, read error): the storage then yields nil
+		verifFaultCalls++
+		if verifBool(vn("fault", verifFaultCalls, "")) {
+			return nil
+		}
+	}
 	for i := range verifRegIdx {
 		if verifRegIdx[i] == idx {
 			return verifRegRules[i]
@@ -122,4 +131,55 @@ func verifC01Vacuity() {
 	engine.AddRule(r, 7)
 	_ = engine.MatchAll(req)
 	verifAssert(false, "vacuity")
+}
+
+// verifC19Tables: like verifC01, but every retrieval from the storage may fail
+// independently.  Results degrade to a subset: whatever is returned matches, and
+// rules held in memory (sequential table) are still served.
+func verifC19Tables(n, shape, domLen, urlLen, srcLen, srcTail int) {
+	u := verifString("url", urlLen, "ab:/")
+	src := ""
+	if srcLen >= 0 {
+		src = verifString("src", srcLen, "zq.")
+		if srcLen > 0 {
+			verifAssume(src[0] != '.' && src[srcLen-1] != '.')
+		}
+		for i := 0; i+1 < srcLen; i++ {
+			verifAssume(!(src[i] == '.' && src[i+1] == '.'))
+		}
+		src += verifC01Tails[srcTail]
+	}
+	req := &rules.Request{URL: u, URLLowerCase: u, SourceHostname: src}
+	rs := make([]*rules.NetworkRule, n)
+	inMemory := make([]bool, n)
+	for i := 0; i < n; i++ {
+		sl := (shape >> (8 * i)) & 0xf
+		nd := (shape >> (8*i + 4)) & 0xf
+		rs[i] = rules.VerifTableRule(vn("rule", i, ""), sl, nd, domLen)
+		inMemory[i] = sl < 5 && nd == 0
+	}
+	engine := NewNetworkEngineSkipStorageScan(&filterlist.RuleStorage{})
+	verifRegRules, verifRegIdx = nil, nil
+	for i, r := range rs {
+		idx := int64(i%2+1)<<32 | int64(5+4*i)
+		verifRegRules = append(verifRegRules, r)
+		verifRegIdx = append(verifRegIdx, idx)
+		engine.AddRule(r, idx)
+	}
+	verifFaulty, verifFaultCalls = true, 0
+	got := engine.MatchAll(req)
+	verifFaulty = false
+	if verifFaultCalls > 0 {
+		verifReach("c19.retrieval")
+	}
+	for _, g := range got {
+		verifAssert(verifRuleIn(g, rs), "c19: only rules of the lists are returned")
+		verifAssert(g.Match(req), "c19: every returned rule truly matches the request")
+	}
+	for i, r := range rs {
+		if inMemory[i] && r.Match(req) {
+			verifReach("c19.inmemory")
+			verifAssert(verifRuleIn(r, got), "c19: rules already held in memory are still served")
+		}
+	}
 }
